@@ -194,6 +194,12 @@ impl Config {
                 ));
             }
 
+            if Latin1String::from_utf8(name).is_err() {
+                return Err(format!(
+                    "The '{name}' library is not a valid library.\nHint: Library names may only contain latin-1 characters"
+                ));
+            }
+
             let file_arr = lib
                 .get("files")
                 .ok_or_else(|| format!("missing field files for library {name}"))?
